@@ -47,7 +47,7 @@ CLAIMS = {
    note="preemption modelled at lock boundaries of the anchored code; only the begin_read window is replayed with real threads so far", ref="DESIGN.md 4/C03"),
  "C05": dict(cat="model_checking", tech=PAGER + "TLC trace validation of histories with abandoned transactions incl. equality of the allocated page set before/after",
    text="design: AbortRestores (action property) and Kv.tla Abort. code: random histories with 20-25% abandoned transactions (abort, drop, after savepoint/catalog/durability operations); later calls must behave as if they never happened and the allocated page set must be EQUAL before and after.",
-   note="partial-failure injection inside rename/delete/restore is not covered here", ref="DESIGN.md 4/C05"),
+   note="panicking predicates are injected; I/O failures inside rename/delete/restore are exercised by C08's fault enumeration", ref="DESIGN.md 4/C05"),
  "C06": dict(cat="model_checking", tech=PAGER + "TLC evaluation of the ownership invariants (PagerInv.tla) on state projections recorded after every transaction of random histories",
    text="design: Owner1/Pinned/AllocRecordsOk on every state of the model. code: after every transaction end the projected allocator/tree/freed-table/tracker state must satisfy the same invariants, and after a settle sequence nothing may remain pending (storage back to what the contents need).",
    note="reachable sets come from redb's own tree walk via hooks", ref="DESIGN.md 4/C06"),
